@@ -1688,6 +1688,19 @@ def progress(c, facts, b, g, mfacts):
                 elif re.match(r"^\w+/#\d+$", ty) and pth not in hand_reach():
                     # iterator supplied by the caller of a generic (macro-generated) function that no hand-written body of the crate reaches
                     finite.append("%s: for over a caller-supplied %s, unreachable from hand-written code" % (pth, ty))
+                elif re.match(r"^\w+/#\d+$", ty):
+                    # the iterator is a type parameter of the function: as finite as what the crate's own call sites pass for it
+                    sites = [(q, cl2) for q, bd2 in mfacts.bodies.items() for cl2 in bd2["calls"] if (cl2.get("resolved") or cl2["callee"]) == pth or cl2["callee"] == pth]
+                    bad_sites = []
+                    for q, cl2 in sites:
+                        gs = F.split_generics(cl2["generics"][1:-1]) if cl2["generics"].startswith("[") else [cl2["generics"]]
+                        gs = [x.strip().lstrip("&").replace("'{erased} ", "").strip() for x in gs if x.strip() and not x.strip().startswith("'")]
+                        if not gs or not any(finite_iterable(x) for x in gs) or any(("iter::" in x or "Iterator" in x) and not finite_iterable(x) for x in gs):
+                            bad_sites.append("%s passes %s" % (q, gs))
+                    if sites and not bad_sites:
+                        finite.append("%s: for over the type parameter %s, instantiated at its %d call site(s) with finite collections only" % (pth, ty, len(sites)))
+                    else:
+                        loops.append("%s: for over %s (not a known finite iterable)%s" % (pth, ty[:100], ("; " + "; ".join(bad_sites[:2])) if bad_sites else ""))
                 else:
                     loops.append("%s: for over %s (not a known finite iterable)" % (pth, ty[:100]))
     if n_for_e2 < n_for_e1:
